@@ -272,12 +272,29 @@ func (a *analysis) walk(fd *ast.FuncDecl, depth int, seen map[string]bool) []Poi
 			return true
 		}
 		blocking, ctxCheck := false, false
+		noPark := map[ast.Node]bool{} // comm statements of a select that has a `default`: they never park the goroutine
 		ast.Inspect(fs.Body, func(k ast.Node) bool {
+			if k != nil && noPark[k] {
+				return false
+			}
 			switch x := k.(type) {
 			case *ast.SelectStmt:
-				blocking = true
+				hasDefault := false
+				for _, c := range x.Body.List {
+					if cc := c.(*ast.CommClause); cc.Comm == nil {
+						hasDefault = true
+					}
+				}
+				if !hasDefault {
+					blocking = true
+				}
 				for _, c := range x.Body.List {
 					if cc := c.(*ast.CommClause); cc.Comm != nil {
+						if hasDefault {
+							// `select { case errCh <- err: default: }` and the like: a poll, not a blocking operation
+							// (a plain send/receive STATEMENT is still seen below)
+							noPark[cc.Comm] = true
+						}
 						if u := recvOf(cc.Comm); u != nil && isCtxDone(u) {
 							ctxCheck = true
 						}
